@@ -195,8 +195,12 @@ fn(WS + ".handle",
        ("C07.err-idle.ws", "implies(isinstance(event, Request) and not self.g_app_started, trace_any('sent', 'x', isinstance(x, StreamClosed)))", "C07"),
        ("C03.ws.closed-delivers-nothing", "implies(old(self.closed), n_emitted('puts') == 0 and n_emitted('sent') == 0)", "C03"),
        # C11: the disconnect code tells the application what happened
-       ("C11.code", "implies(isinstance(event, StreamClosed) and not old(self.closed) and self.g_app_started, n_emitted('puts') == 1 and emitted('puts')[0]['type'] == 'websocket.disconnect' "
-        "and emitted('puts')[0]['code'] == (old(self.g_remote_code) if old(self.g_remote_closed) else (1000 if old(self.state) in (ASGIWebsocketState.CLOSED, ASGIWebsocketState.HTTPCLOSED) else 1006)))", "C11"),
+       # (two clauses: the client-initiated close is finding F11 and is recorded against .code only;
+       # own close / lost connection must keep holding)
+       ("C11.code", "implies(isinstance(event, StreamClosed) and not old(self.closed) and self.g_app_started and old(self.g_remote_closed), n_emitted('puts') == 1 and emitted('puts')[0]['type'] == 'websocket.disconnect' "
+        "and emitted('puts')[0]['code'] == old(self.g_remote_code))", "C11"),
+       ("C11.code.own-or-lost", "implies(isinstance(event, StreamClosed) and not old(self.closed) and self.g_app_started and not old(self.g_remote_closed), n_emitted('puts') == 1 and emitted('puts')[0]['type'] == 'websocket.disconnect' "
+        "and emitted('puts')[0]['code'] == (1000 if old(self.state) in (ASGIWebsocketState.CLOSED, ASGIWebsocketState.HTTPCLOSED) else 1006))", "C11"),
    ],
    props=("C04", "C03", "C10", "C11", "C07"))
 
